@@ -1,0 +1,37 @@
+//go:build verif
+
+package pdf
+
+import "io"
+
+// Hooks for the verification harness of property C20 (/verif).  They add no
+// logic of their own: each one calls unexported steps of SequentialScan so
+// that the harness can observe them separately.
+
+// VerifLocate runs the first two steps of SequentialScan (locateObjects,
+// indexObjects) without checkObjects.
+func VerifLocate(r io.ReaderAt, size int64) (*FileInfo, error) {
+	fi := &FileInfo{R: r, FileSize: size}
+	err := fi.locateObjects()
+	if err != nil {
+		return nil, err
+	}
+	fi.indexObjects()
+	return fi, nil
+}
+
+// VerifParse reads the object at a located candidate exactly as checkObjects does.
+func (fi *FileInfo) VerifParse(o *FileObject) (Object, int64, error) {
+	return fi.doRead(o, fi.makeSafeGetInt(), false)
+}
+
+// VerifXRef returns makeXRef's table as number -> (offset, generation).
+func (fi *FileInfo) VerifXRef() map[uint32][2]int64 {
+	res := map[uint32][2]int64{}
+	for n, e := range fi.makeXRef() {
+		if e != nil {
+			res[n] = [2]int64{e.Pos, int64(e.Generation)}
+		}
+	}
+	return res
+}
